@@ -80,4 +80,29 @@ def split(
     else:
         pairs = map(lambda x, c: (x, bool(c)), iterable, condition)
     p1, p2 = tee(pairs)
-    return (x for x, c in p1 if c), (x for x, c in p2 if not c)
+    return _SplitSide(p1, True), _SplitSide(p2, False)
+
+
+class _SplitSide(Iterator[T]):
+    """
+    One of the two iterators returned by :func:`split`: the values whose
+    decision is that of its side. Not a generator: an error raised by the
+    condition for one value is passed on to whoever asked for that value
+    and the following values can still be asked for afterwards.
+    """
+
+    def __init__(self, pairs: Iterator[Tuple[T, bool]], side: bool):
+        self._pairs = pairs
+        self._side = side
+        self._done = False
+
+    def __iter__(self) -> '_SplitSide[T]':
+        return self
+
+    def __next__(self) -> T:
+        if not self._done:
+            for x, c in self._pairs:
+                if c is self._side:
+                    return x
+            self._done = True  # Stays finished, like any iterator
+        raise StopIteration
